@@ -445,3 +445,25 @@ pub fn inputs(rng: &mut Rng, thorough: bool) -> Vec<Inp> {
     let _ = thorough;
     out
 }
+
+/// probe (not part of the check): an OCF block whose count is smaller than the rows its bytes hold
+pub fn probe_count() {
+    let mut rng = Rng::new(1);
+    let (schema, batches) = sample_batches(&mut rng);
+    let b = write_ocf(&schema, &batches[..1], None).unwrap();
+    let marks = ocf_marks(&b);
+    let hdr_end = marks[2];
+    let mut c = b.clone();
+    println!("count byte {:#x}", c[hdr_end]);
+    c[hdr_end] -= 2; // zig-zag: one row less
+    let (tx, rx) = std::sync::mpsc::channel();
+    std::thread::spawn(move || {
+        let inp = ocf_inp("probe", c);
+        let s = oneshot_ocf(&inp, 1024);
+        let _ = tx.send((s.ok, s.cls, s.batches.iter().map(|b| b.len()).sum::<usize>()));
+    });
+    match rx.recv_timeout(std::time::Duration::from_secs(5)) {
+        Ok(r) => println!("returned {r:?}"),
+        Err(_) => println!("NO RETURN within 5 s (reader spins)"),
+    }
+}
